@@ -126,7 +126,7 @@ func caseUtils(w *px.Writer, class string, ps []uint, q uint, mx uint, la uint, 
 			w.Fail("C18 suitable not monotone in limit: %s ps=%s q=%d limit=%v", dp.name, px.List(ps), q, limit)
 		}
 
-		if mx > 0 || class == "exhaustive" {
+		if mx > 0 || class == "exhaustive" || class == "pick-boundary" {
 			mn2 := utils.PickUpMinNonFatalQuantity(ps, dp.v2, mx)
 			mx2 := utils.PickUpMaxNonFatalQuantity(ps, dp.v2, mx)
 			mn1 := p1.PickUpMinNonFatalQuantity(ps, dp.v1, mx)
@@ -259,6 +259,29 @@ func familyC18(w *px.Writer, r *rand.Rand, thorough bool) {
 		}
 	}
 	caseUtils(w, "empty", nil, 3, 5, 10, 1)
+
+	// boundary maxima for the PickUp functions: max just below / at / just above the
+	// true least (and greatest) satisfying quantity, found by scanning the definition
+	for i, ps := range subsetsDesc(top, maxLen) {
+		for _, dp := range divPairs {
+			l := limits[(i+1)%len(limits)]
+			limit := float64(l[0]) / float64(l[1])
+			preds := []func(uint) bool{
+				func(q uint) bool { return definitionNonFatal(ps, dp.v2, q) },
+				func(q uint) bool { return utils.IsSuitableConfig(ps, dp.v2, q, limit) },
+			}
+			for _, pred := range preds {
+				for q := uint(1); q <= 80; q++ {
+					if pred(q) {
+						for _, mx := range []uint{q - 1, q, q + 1} {
+							caseUtils(w, "pick-boundary", shuffled(r, ps), q, mx, l[0], l[1])
+						}
+						break
+					}
+				}
+			}
+		}
+	}
 
 	// near-equal large priorities (Rate truncation, defect D2 family)
 	for n := 0; n < nFam; n++ {
